@@ -2,7 +2,7 @@
    Statements only; proofs are `exact` of lemmas in theories/CmsLinearProofs.v. *)
 From Coq Require Import ZArith List Lia.
 From Sketchnu Require Import Machine Ngram CmsLinear CmsLinearProofs CmsLinearHarness.
-From Sketchnu Require HashInj.
+From Sketchnu Require HashBucket.
 Import ListNotations.
 Open Scope Z_scope.
 
@@ -56,12 +56,12 @@ Print Assumptions C01_core.
 (* instantiated with the hash the kernels really use (column = fasthash64(key, row) mod width, C14) *)
 Theorem C01_with_fasthash : forall (width depth : nat), (0 < width)%nat ->
   forall (h : ahist) (k : key), awf h ->
-  let b := HashInj.hash_bucket width in
+  let b := HashBucket.hash_bucket width in
   Z.min (truth (desugar h) k) cap <= query depth b (aeval width depth b h) k /\
   (forall r, (r < depth)%nat -> query depth b (aeval width depth b h) k <= Z.min cap (mass b (desugar h) r (b r k))).
 Proof.
   intros width depth Hw h k Hh b. split.
-  - exact (C01_api_lower width depth b (fun r k => HashInj.hash_bucket_lt_all width r k Hw) h k Hh).
+  - exact (C01_api_lower width depth b (fun r k => HashBucket.hash_bucket_lt_all width r k Hw) h k Hh).
   - intros r Hr. exact (C01_api_upper width depth b h k r Hh Hr).
 Qed.
 Print Assumptions C01_with_fasthash.
